@@ -7,6 +7,7 @@ import (
 	"go/ast"
 	"go/token"
 	"go/types"
+	"os"
 	"sort"
 	"strconv"
 	"strings"
@@ -555,6 +556,9 @@ func isLockOp(name string) string {
 }
 
 func (x *Exec) call(fr *Frame, st *State, in ssa.Instruction, c *ssa.CallCommon, k func(st *State, res Val)) {
+	if os.Getenv("GOVC_TRACE_CALLS") != "" && fr.depth == 0 {
+		fmt.Fprintln(os.Stderr, "CALL", x.label(fr.fn, in, "call"), x.where(in))
+	}
 	if fr.con != nil && len(fr.con.AssertAt) > 0 {
 		lbl := x.label(fr.fn, in, "call")
 		for i, a := range fr.con.AssertAt[lbl] {
